@@ -80,7 +80,21 @@ TypingFails(e) ==
   \* the twin's own answers are judged as well
   \cup (IF e.twin.by # "none" THEN TotalFails(e.twin.res) ELSE {})
 
+\* C05, second half: characterize returns an instance of a candidate type that accepts the
+\* record, and fails with RuntimeError exactly when no candidate accepts it.
+CharacterizeFails(e) ==
+  LET w == e.seq
+      ok(c) == Typing(c.toks, c.enz, c.role, w).ok
+      accepting == {i \in 1..Len(e.cands) : ok(e.cands[i])}
+  IN IF ~IsNucWord(w) THEN {"S:C05Precondition"}
+     ELSE IF e.res.exc = ""
+          THEN Chk("C05:CharacterizeReturnsAcceptingCandidate",
+                   /\ e.res.valid
+                   /\ \E i \in accepting : e.cands[i].name = e.res.cls)
+          ELSE Chk("C05:CharacterizeFailsIffNoCandidate", e.res.exc = "RuntimeError" /\ accepting = {})
+
 Fails(e) == CASE e.ev = "Typing" -> TypingFails(e)
+              [] e.ev = "Characterize" -> CharacterizeFails(e)
               [] OTHER -> {"X:UnknownEvent"}
 
 Init == l = 1
